@@ -1727,6 +1727,27 @@ func c12GenReqs(g *c12Gen, cfg genCfg, playBlock int) ([]c12Req, string) {
 		}
 	}
 	fam := ""
+	// a block play first rolls back the pending transactions that conflict with the block: selectors of the
+	// addresses whose outputs come back for that moment must not be handed them
+	if owners := c12RolledBackOwners(g.nm, playBlock); len(owners) > 0 && rapid.IntRange(0, 2).Draw(rt, "selvsplay") > 0 {
+		fam = "selectors-vs-play-rollback"
+		a := owners[rapid.IntRange(0, len(owners)-1).Draw(rt, "rbowner")]
+		add(g.selector(a))
+		add(g.selector(a))
+		if rapid.Bool().Draw(rt, "rbthird") {
+			add(g.selector(a))
+		}
+		reqs = append(reqs, c12Req{Kind: "play", Block: playBlock})
+		if len(reqs) > 1 {
+			perm := rapid.Permutation(c12Iota(len(reqs))).Draw(rt, "threadorder")
+			sh := make([]c12Req, len(reqs))
+			for i, p := range perm {
+				sh[i] = reqs[p]
+			}
+			reqs = sh
+		}
+		return reqs, fam
+	}
 	// rapid favours small numbers: the weighted families are interleaved over the 100 slots
 	switch f := c12FamilySlots[rapid.IntRange(0, 99).Draw(rt, "family")]; {
 	case f < 26:
@@ -1839,6 +1860,38 @@ func c12GenReqs(g *c12Gen, cfg genCfg, playBlock int) ([]c12Req, string) {
 		reqs = sh
 	}
 	return reqs, fam
+}
+
+// c12RolledBackOwners: ring indices of the addresses owning an input of a pending transaction that conflicts (shares
+// an input) with a transaction of block b which is not that pending transaction itself.
+func c12RolledBackOwners(nm *hx.NodeMachine, b int) []int {
+	if b <= 0 {
+		return nil
+	}
+	spentBy := map[string]string{}
+	for _, tx := range nm.BlockTxs[b] {
+		for _, in := range tx.TxInputs {
+			spentBy[fmt.Sprintf("%x_%d", in.RefTxid, in.RefOffset)] = string(tx.Txid)
+		}
+	}
+	seen := map[int]bool{}
+	var out []int
+	for _, p := range nm.Pool {
+		for _, in := range p.TxInputs {
+			if by, ok := spentBy[fmt.Sprintf("%x_%d", in.RefTxid, in.RefOffset)]; ok && by != string(p.Txid) {
+				for _, in2 := range p.TxInputs {
+					for i := 0; i < 6; i++ {
+						if hx.Ring[i].Address == string(in2.FromAddr) && !seen[i] {
+							seen[i] = true
+							out = append(out, i)
+						}
+					}
+				}
+			}
+		}
+	}
+	sort.Ints(out)
+	return out
 }
 
 // c12FamilySlots maps a drawn slot to a number whose range selects the family (weights 26/12/12/12/
@@ -2161,8 +2214,8 @@ func c12SchedOf(steps []hx.SchedStep) []int {
 
 func TestC12(t *testing.T) {
 	c := hx.NewCollector("C12", "exploration",
-		"cooperative deterministic scheduler over the yield points of the real lock protocol (SpinLock.TryLock/Unlock steps, doTxSync locked/beforeWrite/beforePublish, RWMutex acquisition probes); every scheduling choice is a rapid draw (uniform or PCT-style), the executed schedule is recorded. Part A: 2-4 threads TryLock/critical/Unlock on a 1-3 key table, oracle = read/write exclusion at every moment, all entries released, uncontended lock succeeds. Part B: 2-4 concurrent DoTx/SelectUtxos/PlayAndRepost on one node after a sequential prefix, oracle = admitted set applies in some serial order on the model and every observable (pointer, total, balances, UTXO table, key versions, pool) equals model+admitted set, selectors get disjoint unspent outputs, no panic/deadlock, same after reopen. Non-trivial = two requests sharing a lock key were inside their lock-protocol regions (first trylock.key .. last unlock.key) at the same time (>= 1 context switch inside a region); distinct = hash of (scenario, schedule)",
-		"interleavings at the granularity of the verifhook yield points (SelectUtxos and a block play are atomic steps at that granularity)",
+		"cooperative deterministic scheduler over the yield points of the real lock protocol (SpinLock.TryLock/Unlock steps, doTxSync locked/beforeWrite/beforePublish, PlayAndRepost afterUnconfirm/beforeWrite, RWMutex acquisition probes); every scheduling choice is a rapid draw (uniform or PCT-style), the executed schedule is recorded. Part A: 2-4 threads TryLock/critical/Unlock on a 1-3 key table, oracle = read/write exclusion at every moment, all entries released, uncontended lock succeeds. Part B: 2-4 concurrent DoTx/SelectUtxos/PlayAndRepost on one node after a sequential prefix, oracle = admitted set applies in some serial order on the model and every observable (pointer, total, balances, UTXO table, key versions, pool) equals model+admitted set, selectors get disjoint unspent outputs, no panic/deadlock, same after reopen. Non-trivial = two requests sharing a lock key were inside their lock-protocol regions (first trylock.key .. last unlock.key) at the same time (>= 1 context switch inside a region); distinct = hash of (scenario, schedule)",
+		"interleavings at the granularity of the verifhook yield points (SelectUtxos is one atomic step; a block play has two interior points: after the rollback of conflicting pending transactions and before the write)",
 		"VerifyTx (contract re-execution) is done before the concurrent phase: it is not part of the lock protocol",
 		"spurious refusals (TryLock is all-or-fail) are not judged: the statement constrains what is admitted",
 		"deterministic ECDSA signer; goleveldb on in-memory storage")
